@@ -33,6 +33,11 @@ theorem source_written_after_setup :
 /-- the per-render copies that keep aliased data out of reach of other renders (see C10) -/
 theorem source_copies_before_evaluation : Generated.evaluatesDeepClone = true ∧ Generated.callerDataCopied = true := by decide
 
+/-- the render methods of a template value never hand the template's own variable stack to an evaluation: they read it (EnvMap, Lookup) or pass a
+    `Copy()`. Evaluation pushes scopes and assigns variables; on a stack shared by the goroutines that use one template value that would be
+    cross-talk and a data race (`RenderString` on a shared base template) -/
+theorem source_render_works_on_stack_copy : Generated.renderReadsTemplateStackOnly = true := by decide
+
 /-- … and a deep clone shares no attribute storage with the cached node: an `append` to a clone's attributes cannot reach the cache -/
 theorem source_clone_owns_its_attributes : Generated.deepCloneCopiesAttrs = true := by decide
 
